@@ -8,6 +8,8 @@
    the restart counter at 0 ([restore false]; HEAD since fe05ccf: [restore true]) and the timer callback
    used to run Timeout() even when the timer had been stopped/restarted meanwhile ([raw_timeout]; HEAD
    since bbcb995: a timer expiry needs a pending timer, which is what ETimeout means in [step]).
+   [raw_timeout] is also what the exported method Timeout() of HEAD does (it has no caller in /repo outside
+   tests; the correspondence check drives it as op Y).
    No finding of this property is open; every _refuted theorem below is about code before the named commit.
    [rfc1661] is the table of RFC 1661 section 4.1 transcribed independently (Model.v part 2), and
    Rfc2.v a second transcription in the RFC's own row layout.
@@ -25,6 +27,28 @@ Theorem C05_rfc_tables_agree :
   forall s e, cell_matches s e = true.
 Proof. exact rfc_tables_agree. Qed.
 Print Assumptions C05_rfc_tables_agree.
+
+(* The mapping packet -> event class is transcribed twice as well: Model.classify (match on the decoded
+   code) and Rfc2.packet_event (by code range / lookup list, over the facts the RFC text names) agree for
+   every configuration, automaton, code, identifier, answer class and data. *)
+Theorem C05_classify_agree :
+  forall c f code id k data,
+  verdict_of (classify c f (EInput code id k data)) =
+  packet_event (lcp c) (st_eqb (st f) Opened) code (id =? lastReq f)
+               (negb (is_malformed k)) (is_good k) (dlen_of data >=? 4).
+Proof. exact classify_agree. Qed.
+Print Assumptions C05_classify_agree.
+
+(* The two readings the RFC leaves to the implementer (section 4.3, "acceptable" vs "catastrophic"), and
+   the cells in which they matter: (A) every Code-Reject is RXJ- — differs from RXJ+ in every state with
+   the link up; (B) a Protocol-Reject outside Opened is discarded (5.7) rather than RXJ+ — differs in
+   Ack-Rcvd only (RXJ+ there is 7 -> 6, elsewhere "no action, same state"). *)
+Theorem C05_classify_reading :
+  (forall s, s <> Initial -> s <> Starting -> rfc1661 s RXJp <> rfc1661 s RXJm) /\
+  (forall s, s <> Initial -> s <> Starting -> s <> AckRcvd -> rfc1661 s RXJp = Some ([], s)) /\
+  rfc1661 AckRcvd RXJp = Some ([], ReqSent).
+Proof. exact reading_cells. Qed.
+Print Assumptions C05_classify_reading.
 
 (* ---- conformance to the table -------------------------------------------------------------- *)
 
